@@ -1,6 +1,6 @@
 (* Model/EntrySender.v — S-expression glue for Model/Sender.v and Model/Outbound.v *)
 From Coq Require Import String List Ascii NArith ZArith QArith Bool.
-From LS Require Import Model.Bytes Model.Sx Model.Tags Gen.Consts Model.Sender Model.Outbound.
+From LS Require Import Model.Bytes Model.Sx Model.Tags Gen.Consts Model.Sender Model.Outbound Model.SenderFault.
 Import ListNotations.
 
 Definition un_Q' (x : sx) : option Q :=
@@ -56,6 +56,41 @@ Definition e_sender_run (args : list sx) : sx :=
       | _, _ => sx_err "sender_run: bad args"
       end
   | _ => sx_err "sender_run: arity"
+  end.
+
+(* (sender_fault_run <k> <handler> ((<label> <ok>) ...)), handler: absent | (returns none) | (returns (some <bool>)) *)
+Definition un_handler (x : sx) : option handler :=
+  if is_sym "absent" x then Some HAbsent
+  else match x with
+       | SL [h; b] => if is_sym "returns" h then option_map HReturns (un_opt un_bool b) else None
+       | _ => None
+       end.
+
+Definition un_flabel (x : sx) : option (slabel * bool) :=
+  match x with
+  | SL [l; ok] => match un_slabel l, un_bool ok with Some l', Some ok' => Some (l', ok') | _, _ => None end
+  | _ => None
+  end.
+
+Fixpoint frun_idx (h : handler) (f : fstate) (ls : list (slabel * bool)) (idx : nat) : sx :=
+  match ls with
+  | [] => app_ "ok" [sx_list sx_wrec (ss_out (f_s f)); sx_bool (ss_alive (f_s f)); sx_nat (f_attempts f);
+                     sx_nat (f_reports f); sx_nat (f_exits f);
+                     sx_opt (fun x => SL [sx_Q' (fst (fst x)); sx_wkind (snd (fst x)); SA (snd x)]) (f_failed f)]
+  | (l, ok) :: r => match fstep h f l ok with
+                    | Some f' => frun_idx h f' r (S idx)
+                    | None => app_ "rejected" [sx_nat idx; sx_opt sx_Q' (ss_tmo (f_s f)); sx_Q' (ss_elapsed (f_s f)); sx_Q' (ss_k (f_s f))]
+                    end
+  end.
+
+Definition e_sender_fault_run (args : list sx) : sx :=
+  match args with
+  | [k; h; ls] =>
+      match un_Q' k, un_handler h, un_listof un_flabel ls with
+      | Some k', Some h', Some ls' => frun_idx h' (fault_init k') ls' 0
+      | _, _, _ => sx_err "sender_fault_run: bad args"
+      end
+  | _ => sx_err "sender_fault_run: arity"
   end.
 
 Definition un_olabel (x : sx) : option olabel :=
